@@ -166,6 +166,17 @@ def query(p):
     return " ".join(t)
 
 
+def trunc_below_thresh(p):
+    """a receive whose buffer is below the eager threshold faces a compatible message at or above it"""
+    return p["thresh"] > 0 and any(
+        r["buf"] < p["thresh"] <= m["size"] and r["rank"] == m["dst"] and r["src"] in (-1, m["src"]) and r["tag"] in (-1, m["tag"])
+        for r in p["rcvs"] for m in p["msgs"])
+
+
+def has_probe(p):
+    return any(("iprecv" in l or "precv" in l) for r in range(p["np"]) for l in p["script"][r])
+
+
 class Runner:
     def __init__(self, ctx, h):
         self.ctx, self.h = ctx, h
@@ -185,7 +196,9 @@ class Runner:
 
     def run(self, k, p, timeout=120):
         rc, logs, errs, err = self.run1(k, p, timeout)
-        if rc == -999:          # a loaded machine is not a livelock: once more with a long timeout
+        if rc == -999 and not (trunc_below_thresh(p) and has_probe(p)):
+            # a loaded machine is not a livelock: once more with a long timeout (not for the programs that are
+            # known to livelock: a stuck truncating receive + a rank polling with Iprobe/Probe, see trunc_below_thresh)
             rc, logs, errs, err = self.run1(k, p, 900)
         return rc, logs, errs, err
 
@@ -272,9 +285,13 @@ def run(ctx):
         kinds[p["kind"]] = kinds.get(p["kind"], 0) + 1
         if rc != 0 or errs or "eadlock" in err:
             sym = "deadlock" if "eadlock" in err else "timeout" if rc == -999 else "senderror" if errs else "exit%d" % rc
-            if sym == "deadlock" and p["thresh"] > 0 and any(
-                    r["buf"] < p["thresh"] <= m["size"] and r["rank"] == m["dst"] and r["src"] in (-1, m["src"]) and r["tag"] in (-1, m["tag"])
-                    for r in p["rcvs"] for m in p["msgs"]):
+            if sym == "deadlock" and trunc_below_thresh(p):
+                sym = "deadlock-truncating-recv-below-eager-thresh"
+            elif sym == "timeout" and trunc_below_thresh(p) and has_probe(p):
+                # the same defect in its livelock form (diagnosed with gdb on the seed-3 program): the receive posted
+                # with a buffer below the threshold sits in the small mailbox, the matching send >= threshold blocks in
+                # the large one, and another rank polling with MPI_Iprobe/MPI_Probe keeps the simulation alive (each
+                # failed probe sleeps a growing amount), so no deadlock is ever reported
                 sym = "deadlock-truncating-recv-below-eager-thresh"
             kinds_fail[sym] = kinds_fail.get(sym, 0) + 1
             ctx.violation("generated (deadlock-free by construction) program did not complete: %s %s" % (sym, (errs or [err[-300:]])[0]),
